@@ -550,7 +550,7 @@ func NewSpecSet() *SpecSet {
 
 var clauseKeywords = map[string]bool{"spec": true, "axiom": true, "ghost": true, "func": true, "requires": true, "ensures": true,
 	"modifies": true, "loop": true, "at": true, "maypanic": true, "inline": true, "trusted": true, "pure": true, "check": true,
-	"let": true, "chanmode": true, "chaninv": true, "defines": true, "thorough": true, "secret": true, "noverify": true, "ghostparam": true}
+	"let": true, "chanmode": true, "chaninv": true, "defines": true, "maintains": true, "thorough": true, "secret": true, "noverify": true, "ghostparam": true}
 
 // ReadSpecFile reads //@ lines. pkgPrefix is prepended to `func` keys that are
 // not already qualified (contract files inside a package use short keys).
@@ -774,6 +774,23 @@ func (ss *SpecSet) ReadSpecFile(path, pkgPrefix string) error {
 					}
 					cur.Modifies = append(cur.Modifies, ModLoc{part, e})
 				}
+			case "maintains":
+				// an object invariant the function needs, keeps, and (as a goroutine) keeps at every point where
+				// another goroutine can observe the object: requires + ensures + assumed by the spawner
+				for _, kind := range []string{"requires", "ensures", "maintains"} {
+					c := &Clause{Kind: kind, File: path, Line: rc.line}
+					body := parseTags(rest, c)
+					e, err := ParseExpr(body)
+					if err != nil {
+						fail(rc.line, "%v", err)
+						break
+					}
+					c.E, c.Src = e, body
+					if c.Label == "" {
+						c.Label = "maintains"
+					}
+					cur.Clauses = append(cur.Clauses, c)
+				}
 			case "requires", "ensures":
 				c := &Clause{Kind: kw, File: path, Line: rc.line}
 				rest = parseTags(rest, c)
@@ -791,8 +808,19 @@ func (ss *SpecSet) ReadSpecFile(path, pkgPrefix string) error {
 					continue
 				}
 				n, err := strconv.Atoi(f[0])
+				if err == nil && f[1] == "set" && len(f) >= 5 && f[3] == "=" {
+					// loop N set GHOST = EXPR : ghost snapshot taken at the loop head in every iteration
+					body := strings.TrimSpace(strings.SplitN(rest, "=", 2)[1])
+					e, perr := ParseExpr(body)
+					if perr != nil {
+						fail(rc.line, "%v", perr)
+						continue
+					}
+					cur.Clauses = append(cur.Clauses, &Clause{Kind: "loopset", Loop: n, Site: f[2], E: e, Src: body, File: path, Line: rc.line})
+					continue
+				}
 				if err != nil || (f[1] != "invariant" && f[1] != "decreases") {
-					fail(rc.line, "loop N invariant|decreases EXPR")
+					fail(rc.line, "loop N invariant|decreases|set EXPR")
 					continue
 				}
 				c := &Clause{Kind: f[1], Loop: n, File: path, Line: rc.line}
